@@ -2,6 +2,7 @@ package bcl
 
 import (
 	"bufio"
+	"bytes"
 	stdbinary "encoding/binary"
 	"fmt"
 	"io"
@@ -32,9 +33,35 @@ func uvarintFromBuf(r *bufio.Reader) (uint64, error) {
 	if err != nil && err != io.EOF {
 		return 0, err
 	}
+	if len(p) == 0 || len(p) < uvarintLen(p[0]) {
+		return 0, io.ErrUnexpectedEOF
+	}
 	x, n := uvarintFromBytes(p)
 	_, err = r.Discard(n)
 	return x, err
+}
+
+// uvarintLen gives the encoded length of uvarint, based on its first byte.
+func uvarintLen(b0 byte) int {
+	switch {
+	case b0 <= 240:
+		return 1
+	case b0 <= 248:
+		return 2
+	default:
+		return int(b0) - 246
+	}
+}
+
+// readN reads exactly n bytes, also when n exceeds the reader's buffer,
+// without allocating more than the input provides.
+func readN(r *bufio.Reader, n uint64) ([]byte, error) {
+	var b bytes.Buffer
+	m, err := io.CopyN(&b, r, int64(n))
+	if err == io.EOF || (err == nil && uint64(m) < n) {
+		err = io.ErrUnexpectedEOF
+	}
+	return b.Bytes(), err
 }
 
 func varintToBytes(p []byte, x int64) int {
@@ -135,22 +162,22 @@ func valueFromBuf(r *bufio.Reader) (value, error) {
 
 	switch c := typecode(b[0]); c {
 	case typeINT:
-		p, _ := r.Peek(9)
-		x, i := varintFromBytes(p)
-		_, err = r.Discard(i)
-		return int(x), err
+		x, err := uvarintFromBuf(r)
+		return int(u64ToI64(x)), err
 
 	case typeFLOAT:
-		p, _ := r.Peek(8)
-		_, err = r.Discard(len(p))
-		return math.Float64frombits(stdbinary.BigEndian.Uint64(p)), err
+		p, err := readN(r, 8)
+		if err != nil {
+			return nil, err
+		}
+		return math.Float64frombits(stdbinary.BigEndian.Uint64(p)), nil
 
 	case typeSTR:
-		p, _ := r.Peek(9)
-		k, i := uvarintFromBytes(p)
-		r.Discard(i)
-		p, _ = r.Peek(int(k))
-		_, err = r.Discard(len(p))
+		k, err := uvarintFromBuf(r)
+		if err != nil {
+			return nil, err
+		}
+		p, err := readN(r, k)
 		return string(p), err
 
 	case typeBOOL:
@@ -161,7 +188,7 @@ func valueFromBuf(r *bufio.Reader) (value, error) {
 		return nil, nil
 
 	default:
-		panic(errInvalidType{b[0]})
+		return nil, errInvalidType{b[0]}
 	}
 }
 
